@@ -248,3 +248,11 @@ fcontract('Checksum', '_sizeof', [
          ensures=lambda pre, post: [('size-is-the-checksum-fields-size', size_is(post, Sub(pre, 'checksumfield', kind='sizeof').val), ('C05',))], rkind=rk_dyn),
     Case('no-size', 'raise', lambda pre: t.not_(Sub(pre, 'checksumfield', kind='sizeof').ok)),
 ], tags=('C05',))
+
+
+# ------------------------------------------------------------------------------------------------ Hex / HexDump (C12: wrapper <--> bare construct)
+for _c in ('Hex', 'HexDump'):
+    for _m in ('_decode', '_encode'):
+        fcontract(_c, _m, [Case('always', 'return', lambda pre: t.TRUE, rkind=rk_dyn,
+                                ensures=lambda pre, post: [('returns-a-value-equal-to-the-one-given-display-only', t.eq(post.eng.to_dyn(post.result, post.st), pre['obj'].t), ('C12', 'C01', 'C02'))])],
+                  tags=('C12', 'C01', 'C02'), sub_seq=False)
